@@ -286,3 +286,11 @@ for _k in ("C13",):
 PENDING["C13"] = ("not claimed: the storage state-machine check (harness/checks/storagechk, shared with C12) is quiet in its quick tier and finds a seeded change, "
                   "but its thorough tier reports allocated-differs after update_allocation_request and offers-differ-after-kill on the unchanged tree; "
                   "at least three different causes are involved and they have not been triaged into genuine defect vs. oracle mistake, so nothing the check says is relied upon (DESIGN.md 10.4)")
+
+# ---------------------------------------------------------------------------
+# Per-property registry files: driver/registry/<ID>.py is executed with CHECKS, WIP and PENDING in
+# scope (one file per property so that checks can be developed independently of each other).
+import glob as _glob
+import os as _os
+for _f in sorted(_glob.glob(_os.path.join(_os.path.dirname(_os.path.abspath(__file__)), "registry", "*.py"))):
+    exec(compile(open(_f).read(), _f, "exec"), dict(CHECKS=CHECKS, WIP=WIP, PENDING=PENDING, E1_NOTE=E1_NOTE))
